@@ -5,7 +5,11 @@ With --jobs J several seeds are processed in parallel (different properties only
 import json, os, subprocess, sys, re, concurrent.futures as cf
 root = os.path.dirname(os.path.dirname(os.path.abspath(__file__)))
 args = sys.argv[1:]; jobs = 1
-if args and args[0] == "--jobs": jobs = int(args[1]); args = args[2:]
+key = "recheck"
+while args and args[0] in ("--jobs", "--key"):
+    if args[0] == "--jobs": jobs = int(args[1])
+    else: key = args[1]
+    args = args[2:]
 if not args:
     args = sorted(os.listdir(os.path.join(root, "seeded")), key=lambda x: (x.split("-")[1], x))  # interleave properties
 def one(sid):
@@ -51,7 +55,7 @@ with cf.ThreadPoolExecutor(jobs) as ex:
         print(sid, out, flush=True); res[sid] = out
         mp = os.path.join(root, "seeded", sid, "meta.json")
         if os.path.exists(mp):
-            m = json.load(open(mp)); m["recheck"] = "re-run against /repo %s with the final checks: %s" % (head, out)
+            m = json.load(open(mp)); m[key] = "re-run against /repo %s with the final checks%s: %s" % (head, (" (VERIF_SEED=%s)" % os.environ["VERIF_SEED"]) if os.environ.get("VERIF_SEED") else "", out)
             json.dump(m, open(mp, "w"), indent=1)
 subprocess.run(["git", "-C", "/repo", "worktree", "prune"])
 bad = [s for s, o in res.items() if o.startswith("MISSED") or o.startswith("check did not run")]
